@@ -1,6 +1,7 @@
 package main
 
 import (
+	mrand "math/rand"
 	"bytes"
 	"context"
 	"crypto/ecdsa"
@@ -61,6 +62,9 @@ func genServer(g *genCtx) {
 		parts := []string{}
 		for i := 0; i < n; i++ {
 			m, p := methods[r.intn(len(methods))], mkPath(r)
+			if r.chance(1, 3) {
+				p += "/" // a subtree pattern: serves everything below it
+			}
 			if seen[m+p] {
 				continue
 			}
@@ -102,12 +106,31 @@ func genServer(g *genCtx) {
 				}
 				continue
 			}
+			// net/http answers a path "/p" with a redirect when "/p/" is a registered subtree pattern; that is not modelled,
+			// so such paths are not requested
+			subtree := map[string]bool{}
+			for _, rt := range strings.Split(spec.r, ",") {
+				if f := strings.Split(rt, ":"); strings.HasSuffix(f[1], "/") {
+					subtree[f[1]] = true
+				}
+			}
 			for _, rt := range strings.Split(spec.r, ",") {
 				f := strings.Split(rt, ":")
 				reqs = append(reqs, fmt.Sprintf("req l=%s m=%s p=%s body=%d", spec.l, f[0], f[1], []int{0, 5, 65536}[r.intn(3)]))
+				if strings.HasSuffix(f[1], "/") {
+					// below a subtree route, with its method and with another one
+					if below := f[1] + strings.TrimPrefix(mkPath(r), "/"); !subtree[below+"/"] {
+						reqs = append(reqs, fmt.Sprintf("req l=%s m=%s p=%s body=%d", spec.l, f[0], below, []int{0, 5}[r.intn(2)]))
+					}
+					reqs = append(reqs, fmt.Sprintf("req l=%s m=%s p=%sz body=0", spec.l, methods[r.intn(4)], f[1]))
+				}
 			}
 			for i := 0; i < 4; i++ {
-				reqs = append(reqs, fmt.Sprintf("req l=%s m=%s p=%s body=%d", spec.l, methods[r.intn(4)], mkPath(r), []int{0, 7}[r.intn(2)]))
+				p := mkPath(r)
+				if subtree[p+"/"] {
+					continue // net/http answers such a path with a redirect to the subtree root; not modelled, not requested
+				}
+				reqs = append(reqs, fmt.Sprintf("req l=%s m=%s p=%s body=%d", spec.l, methods[r.intn(4)], p, []int{0, 7}[r.intn(2)]))
 			}
 		}
 		for _, q := range reqs {
@@ -154,14 +177,27 @@ type recLog struct {
 	saw   map[string]string   // request id -> what the handler saw
 }
 
+// freePort picks a port that is free right now.  Cases run in parallel child processes: asking the kernel for an
+// ephemeral port (":0") hands the same numbers to siblings one after the other, and a sibling may bind the port between
+// our probe and the server's own Listen.  A random port from a wide range, drawn from a per-process source and never
+// handed out twice by this process, makes such a collision improbable instead of likely.
+var (
+	portRng   = mrand.New(mrand.NewSource(time.Now().UnixNano() ^ int64(os.Getpid())<<20))
+	portsUsed = map[int]bool{}
+)
+
 func freePort() int {
-	for i := 0; i < 50; i++ {
-		l, err := net.Listen("tcp", "127.0.0.1:0")
+	for i := 0; i < 200; i++ {
+		p := 15000 + portRng.Intn(45000)
+		if portsUsed[p] {
+			continue
+		}
+		l, err := net.Listen("tcp", fmt.Sprintf(":%d", p))
 		if err != nil {
 			continue
 		}
-		p := l.Addr().(*net.TCPAddr).Port
 		l.Close()
+		portsUsed[p] = true
 		return p
 	}
 	return 0
